@@ -13,6 +13,7 @@ import (
 	_ "verifharness/props/c08"
 	_ "verifharness/props/c09"
 	_ "verifharness/props/c11"
+	_ "verifharness/props/c12"
 )
 
 func main() { mc.Main() }
